@@ -44,6 +44,19 @@ CHECKS["C11"] = dict(
     note="Trusted: Coq kernel, harness, CPython. Model hand-written. Bins of one coverpoint are mutually disjoint.",
     technique="Coq proof over hand-written state-machine model + per-sample differential correspondence evaluated in Coq",
     ref="DESIGN.md §3 C11")
+CHECKS["C12"] = dict(
+    text="Theorems (Coq, closed) about a Gallina model of the coverage registry (register_cg: attach to the first type of the same "
+         "name with a structurally equal shape, else clone a new type), the propagation of a sample to the type covergroup, and the "
+         "coverage arithmetic with at_least and weight over exact rationals: sampling instance k touches only k and its type; for "
+         "every interleaving of constructions and samples type hits are the bin-wise sum of the attached instances; instances share "
+         "a type iff same name and shape; coverage of an item and of a covergroup is within 0..100, monotone in the hits, and 100 "
+         "exactly when every bin of every weighted item reached at_least. Tie: random populations of instances with parameter "
+         "variants are created and sampled in interleaved order on the real code; attachments, all counters and the coverage "
+         "numbers after every sample are judged inside Coq by the model and by a spec evaluated on the observations.",
+    note="Trusted: Coq kernel, harness, CPython. Model hand-written. What a sample does to the sampled instance's bins is C10/C11's "
+         "subject and enters as observed increments. Coverpoints have >= 1 bin, total weight > 0; percentages compared within 1e-4.",
+    technique="Coq proof (invariant over operation sequences, Q arithmetic) + differential correspondence evaluated in Coq",
+    ref="DESIGN.md §3 C12")
 NOT_YET = {}
 
 def main():
